@@ -263,7 +263,16 @@ func (g *pg) exprM(d int) *X {
 
 func (g *pg) path() *X {
 	// m.o.p[1].q  |  m.k  |  m["k"]  |  o.f(1)  |  m.o.p[0]  |  lib-free access chains
-	switch g.pick(5, "pk") {
+	switch g.pick(7, "pk") {
+	case 5: // an index after a call whose argument is printed on several lines (list above the multi-line threshold)
+		long := &X{K: "list"}
+		for i := 0; i < 5+g.pick(3, "ll"); i++ {
+			long.A = append(long.A, &X{K: "num", S: fmt.Sprint(i)})
+		}
+		return &X{K: "idx", A: []*X{{K: "call", A: []*X{g.id("idf"), long}}, {K: "num", S: fmt.Sprint(g.pick(5, "li"))}}}
+	case 6: // the same with a map argument and a dotted access before the index
+		mp := &X{K: "map", A: []*X{{K: "str", S: "p"}, {K: "list", A: []*X{{K: "num", S: "7"}, {K: "num", S: "8"}}}, {K: "str", S: "u"}, {K: "num", S: "1"}, {K: "str", S: "w"}, {K: "num", S: "2"}}}
+		return &X{K: "idx", A: []*X{{K: "dot", S: "p", A: []*X{{K: "call", A: []*X{g.id("idf"), mp}}}}, {K: "num", S: "1"}}}
 	case 0:
 		return &X{K: "dot", S: "q", A: []*X{{K: "idx", A: []*X{{K: "dot", S: "p", A: []*X{{K: "dot", S: "o", A: []*X{g.id("m")}}}}, {K: "num", S: "1"}}}}}
 	case 1:
@@ -851,7 +860,7 @@ func (g *pg) sink(c sctx) string {
 	return sb.String()
 }
 
-const progPrelude = "a := 1\nb := 2\nc := 3\nnumD := 4\ntt := true\nff := false\ns := \"str\"\nl := [1, 2, 3]\nm := {\"k\" : 1, \"o\" : {\"p\" : [1, {\"q\" : 2}]}}\no := {\"v\" : 5, \"f\" : func (x) {\n    return x + 1\n}}\n"
+const progPrelude = "func idf(v) {\n    return v\n}\na := 1\nb := 2\nc := 3\nnumD := 4\ntt := true\nff := false\ns := \"str\"\nl := [1, 2, 3]\nm := {\"k\" : 1, \"o\" : {\"p\" : [1, {\"q\" : 2}]}}\no := {\"v\" : 5, \"f\" : func (x) {\n    return x + 1\n}}\n"
 
 var libs = map[string]string{
 	"lib":      "x := 1\nfunc f(a) {\n    return a + 1\n}\n",
